@@ -14,6 +14,8 @@ patch = os.path.join(d, "patch.diff")
 assert subprocess.run(["git", "-C", "/repo", "status", "--porcelain"], capture_output=True, text=True).stdout.strip() == "", "/repo not clean"
 subprocess.run(["git", "-C", "/repo", "apply", patch], check=True)
 runs = []
+# evidence files are rewritten by every run; the committed ones must come from the unchanged tree
+saved = {p: open(f"/verif/evidence/{p}.json").read() for p in props if os.path.exists(f"/verif/evidence/{p}.json")}
 try:
     for p in props:
         t0 = time.time()
@@ -29,6 +31,8 @@ try:
 finally:
     subprocess.run(["git", "-C", "/repo", "checkout", "--", "."], check=True)
     subprocess.run(["git", "-C", "/repo", "clean", "-fdq", "tests"], check=False)
+    for p, txt in saved.items():
+        open(f"/verif/evidence/{p}.json", "w").write(txt)
 path = os.path.join(d, "runs.json")
 old = json.load(open(path)) if os.path.exists(path) else []
 json.dump(old + runs, open(path, "w"), indent=1)
